@@ -99,6 +99,28 @@ class Model:
         self.nonblank_total = sum(1 for r_ in rows if len(r_) > 0)
         self.scanset = parse_scan(prog["scan"])
         self.last_fired = 0
+        self._matcher_built = False
+
+    def _build_matcher(self):
+        # the match part is instantiated when the first line reaches it; named counters exist (at 0) from then on
+        if not self._matcher_built:
+            self._matcher_built = True
+            for c in self.comps:
+                self._init_counters(c)
+
+    def _init_counters(self, n):
+        # a named counter exists, at 0, from the start of the run
+        if isinstance(n, (list, tuple)) and n:
+            if n[0] == "fn":
+                if n[1] == "counter" and n[3] and n[3][0] not in QUALS:
+                    self.vars.setdefault(n[3][0], 0)
+                for a in n[2]:
+                    self._init_counters(a)
+            elif n[0] in ("eq", "when"):
+                self._init_counters(n[1])
+                self._init_counters(n[2])
+            elif n[0] == "assign":
+                self._init_counters(n[4])
 
     # ------------------------------------------------------------ scan
     def in_scan(self, i):
@@ -465,6 +487,10 @@ class Model:
             return False
         if f == "every":
             v = self.val(a[0])
+            if is_none(v):
+                raise Unspec("every of absent/empty")
+            if repr(self.comps).count(repr(n)) > 1:
+                raise Unspec("two textually identical every() share bookkeeping")
             key = ("every", id_of(n), v)
             cnt = self.hidden.get(key, 0) + 1
             if not self.frozen:
@@ -653,6 +679,7 @@ class Model:
         if len(line) == 0:
             if i == file_last:
                 # blank final record: only last() components run, frozen, nothing is returned
+                self._matcher_built = True  # built while frozen: nothing can be initialised any more
                 self.frozen = True
                 self.is_last_line = True
                 self.blank_last = True
@@ -670,6 +697,7 @@ class Model:
             self.advance -= 1
             matched = False
         else:
+            self._build_matcher()
             matched = self.eval_components()
         if sl is not None and i == sl:
             self.stopped = True
@@ -701,6 +729,8 @@ class Model:
                 interrupted = True
                 break
             if om[idx]:
+                if c[0] == "assign":
+                    self.val(c[4])  # may raise Unspec / ExpErr: the value is computed whether or not the line matches
                 continue
             votes[idx] = self.comp_vote(c)
             if (self.stop_fired or self.skip_fired) and control_idx is None:
@@ -725,13 +755,13 @@ class Model:
                 raise Unspec("onmatch in OR mode")
             if rest:
                 # onmatch components take effect only when the rest of the line matches
-                self.match_count += 1  # the match is registered before onmatch components run
-                try:
-                    for idx, c in enumerate(comps):
-                        if om[idx]:
-                            self.comp_vote(strip_onmatch(c))
-                finally:
-                    self.match_count -= 1
+                order = [idx for idx in range(len(comps)) if om[idx]]
+                if len(order) > 1:
+                    self.reached.add("F9b")
+                    if "F9b" in self.emulate:
+                        order.reverse()
+                for idx in order:
+                    self.comp_vote(strip_onmatch(comps[idx]))
         return rest
 
     # ------------------------------------------------------------ whole run
